@@ -10,7 +10,7 @@ set -euo pipefail
 V="${1:-rel}"
 REPO="${REPO:-/repo}"
 HERE="$(cd "$(dirname "$0")" && pwd)"
-OUT="$HERE/build/$V"
+OUT="${VERIF_BUILD_ROOT:-$HERE/build}/$V"
 mkdir -p "$OUT/obj" "$OUT/gen" "$OUT/sim"
 
 COMMON="-std=c17 -D_POSIX_C_SOURCE=200809L -DCIMBA_VERIF -fno-semantic-interposition -ftls-model=initial-exec -Wno-pedantic -I$REPO/include -I$REPO/src -I$OUT/gen"
